@@ -25,3 +25,9 @@ func VerifResetReplayCache() {
 		delete(c.entries, k)
 	}
 }
+
+// VerifNewReplayCache returns a fresh, independent replay cache (no janitor goroutine) so that
+// many histories can be checked in parallel without sharing the singleton.
+func VerifNewReplayCache() *Cache {
+	return &Cache{entries: make(map[string]clientEntries)}
+}
